@@ -818,7 +818,10 @@ class NPMixin:
         for name, g in c.ensures(L, A, N, R, ghost, None):
             gz = _z(g) if not isinstance(g, bool) else z3.BoolVal(g)
             st.pc.append(gz)
-            st.facts['%s:%s' % (short, name)] = gz
+            fk, kk = '%s:%s' % (short, name), 1
+            while (fk if kk == 1 else '%s#%d' % (fk, kk)) in st.facts:
+                kk += 1
+            st.facts[fk if kk == 1 else '%s#%d' % (fk, kk)] = gz
         if lift_mask is not None:
             def lift(v):
                 o = self.deref(st, v)
